@@ -76,6 +76,27 @@ func init() {
 			tm.Ty = x.info.TypeOf(ce)
 			k(s2, []Term{tm})
 		}},
+		"time.NewTimer": {run: func(x *Exec, st *State, fr *Frame, ce *ast.CallExpr, recv Term, args []Term, k func(*State, []Term)) {
+			x.trust("time.After(d): receiving from the timer means d elapsed since it was armed; it counts as a full interval between batches only when armed after the goroutine's last send")
+			s2 := st.clone()
+			tm := x.d.fresh("timer", "Ref")
+			s2.assume(tNot(tEq(tm, nullRef)))
+			am := x.heapMap(s2, "TimerArmed", "Int")
+			s2.maps["TimerArmed"] = tStore(am, tm, x.ghostInt(s2, "actions"))
+			tm.Ty = x.info.TypeOf(ce)
+			k(s2, []Term{tm})
+		}},
+		"(*time.Timer).Reset": {run: func(x *Exec, st *State, fr *Frame, ce *ast.CallExpr, recv Term, args []Term, k func(*State, []Term)) {
+			s2 := st.clone()
+			am := x.heapMap(s2, "TimerArmed", "Int")
+			s2.maps["TimerArmed"] = tStore(am, recv, x.ghostInt(s2, "actions"))
+			r := x.d.fresh("wasActive", "Bool")
+			k(s2, []Term{r})
+		}},
+		"(*time.Timer).Stop": {run: func(x *Exec, st *State, fr *Frame, ce *ast.CallExpr, recv Term, args []Term, k func(*State, []Term)) {
+			r := x.d.fresh("wasActive", "Bool")
+			k(st, []Term{r})
+		}},
 		"time.Sleep": {run: func(x *Exec, st *State, fr *Frame, ce *ast.CallExpr, recv Term, args []Term, k func(*State, []Term)) {
 			x.trust("time.Sleep(d) is a ghost tick: sleeps += 1 (lower bound on elapsed time only)")
 			s2 := st.clone()
